@@ -511,7 +511,7 @@ pub struct Stats {
     pub digest: u64,
     pub want_desc: bool,
     pub case_desc: Option<Value>,
-    cur_case: u64,
+    pub cur_case: u64,
 }
 
 impl Stats {
@@ -583,7 +583,47 @@ impl Stats {
             self.discarded += 1;
         }
     }
-    fn merge(&mut self, o: Stats) {
+    pub fn to_json(&self) -> Value {
+        json!({
+            "cases": self.cases, "evals": self.evals, "classes": self.classes,
+            "nontrivial": self.nontrivial.iter().collect::<Vec<_>>(),
+            "nontrivial_overflow": self.nontrivial_overflow,
+            "samples": self.samples.iter().map(|(i, c, v)| json!([i, c, v])).collect::<Vec<_>>(),
+            "excluded_known": self.excluded_known, "discarded": self.discarded,
+            "sizes": self.sizes, "digest": self.digest,
+        })
+    }
+    pub fn from_json(v: &Value) -> Stats {
+        let mut st = Stats::default();
+        st.cases = v["cases"].as_u64().unwrap_or(0);
+        st.evals = v["evals"].as_u64().unwrap_or(0);
+        if let Some(m) = v["classes"].as_object() {
+            for (k, x) in m {
+                st.classes.insert(k.clone(), x.as_u64().unwrap_or(0));
+            }
+        }
+        if let Some(a) = v["nontrivial"].as_array() {
+            st.nontrivial = a.iter().filter_map(|x| x.as_u64()).collect();
+        }
+        st.nontrivial_overflow = v["nontrivial_overflow"].as_u64().unwrap_or(0);
+        if let Some(a) = v["samples"].as_array() {
+            for s in a {
+                st.samples.push((s[0].as_u64().unwrap_or(0), s[1].as_str().unwrap_or("").to_string(), s[2].clone()));
+            }
+        }
+        if let Some(m) = v["excluded_known"].as_object() {
+            for (k, x) in m {
+                st.excluded_known.insert(k.clone(), x.as_u64().unwrap_or(0));
+            }
+        }
+        st.discarded = v["discarded"].as_u64().unwrap_or(0);
+        if let Some(a) = v["sizes"].as_array() {
+            st.sizes = a.iter().filter_map(|x| x.as_u64()).map(|x| x as u32).collect();
+        }
+        st.digest = v["digest"].as_u64().unwrap_or(0);
+        st
+    }
+    pub fn merge(&mut self, o: Stats) {
         self.cases += o.cases;
         self.evals += o.evals;
         for (k, v) in o.classes {
@@ -704,6 +744,8 @@ pub struct Ctx {
     /// `vh replay <file>`: run only this (sub-check, entropy) in strict mode
     pub replay_entropy: Option<(String, Vec<u8>)>,
     pub replays: Vec<(String, Value)>,
+    /// set in an E3 worker process: only this sub-check runs
+    pub child_sub: Option<String>,
 }
 
 pub fn verif_root() -> String {
@@ -749,7 +791,8 @@ impl Ctx {
             assumptions: vec![],
             extra: BTreeMap::new(),
             replay_entropy: None,
-            replays: load_replays(&verif_root(), prop),
+            replays: if std::env::var("VH_CHILD_SUB").is_ok() { vec![] } else { load_replays(&verif_root(), prop) },
+            child_sub: std::env::var("VH_CHILD_SUB").ok(),
         }
     }
 
@@ -769,11 +812,18 @@ impl Ctx {
         }
     }
 
-    fn sub_seed(&self, sub: &str) -> u64 {
+    pub fn sub_seed(&self, sub: &str) -> u64 {
         mix64(self.seed ^ hash_str(self.prop).rotate_left(17) ^ hash_str(sub).rotate_left(41))
     }
 
-    fn skip(&self, name: &str) -> bool {
+    pub fn is_child(&self) -> bool {
+        self.child_sub.is_some()
+    }
+
+    pub fn skip(&self, name: &str) -> bool {
+        if let Some(c) = &self.child_sub {
+            return c != name;
+        }
         match &self.only {
             Some(o) => !name.contains(o.as_str()),
             None => false,
